@@ -267,6 +267,17 @@ class Topology(System):
             for interactions in block.interactions.values():
                 for interaction in interactions:
                     new_interaction = replace_defined_interaction(interaction, self.defines)
+        # grompp preprocesses the whole file: macros used inside bonded type tables are replaced as well
+        for type_dict in self.types.values():
+            for terms in type_dict.values():
+                for params, _ in terms:
+                    new_params = []
+                    for parameter in params:
+                        if isinstance(self.defines.get(parameter), list):
+                            new_params.extend(self.defines[parameter])
+                        else:
+                            new_params.append(parameter)
+                    params[:] = new_params
 
     def gen_pairs(self):
         """
